@@ -27,12 +27,13 @@ func init() {
 		Run:     run,
 		Rule: "cases: Set/SetOne/Del/DelOne/Remove/RemoveOne/Modify/ModifyOne with paths from C05's generator (last fragment of every supported kind; slices, unions, wildcards, filters and descents in inner positions) on deep copies of unique-leaf trees, scalar and container replacement values, " +
 			"a scalar-rewriting modifier and an array-appending modifier, plus the slice lattice for Remove; after each call the data is compared with the state J's locations prescribe (exact for Remove, Del, Modify; postconditions for Set), *One forms must change at most one location, " +
-			"the gen twin must end in the corresponding state, and failures must be 'can not ...' errors, never panics. non-trivial: J selects at least one location or the path creates elements; distinct by digest of (operation, path, data)",
+			"the gen twin must end in the corresponding state, the same request on jp.Keyed/jp.RemovableIndexed collections and (Remove) on typed Go slices must end in the state reached on maps and slices, and failures must be 'can not ...' errors, never panics. non-trivial: J selects at least one location or the path creates elements; distinct by digest of (operation, path, data)",
 		Assumptions: []string{
 			"Del deletes object members and sets array elements to null in place (pinned by del_test.go); Remove removes and shifts",
 			"only the outermost of nested selected locations carry obligations (a replaced or removed ancestor makes the inner location disappear)",
 			"the state after an error return is not constrained (no atomicity is promised)",
 			"Set is checked by postconditions because path creation is only loosely documented",
+			"the collection and typed-slice twins are compared only when Get selects the same values on them as on the simple data (differences there are C11's subject); DelOne/SetOne take the first member in member order, which differs between a map and an ordered collection: only faults are compared for them; a collection may refuse a Set that a map or slice accepts",
 		},
 		Findings: map[string]func(v *mon.Violation) bool{
 			"mutationSliceSemantics": func(v *mon.Violation) bool {
